@@ -507,6 +507,23 @@ THOROUGH = core.tier() != "quick"
 REF_CELLS = 4.0e6 if THOROUGH else 1.2e6
 
 
+def _scan_selfcheck():
+    """The cyclic-reduction stepping must reproduce the sample-by-sample reference of the Hypothesis clauses (long double)."""
+    a = np.random.RandomState(7).standard_normal(67)
+    T = np.array([0.003, 0.07, 0.9])
+    for xi in (0.0, 0.05):
+        u, v = ref.response(a, 0.01, T, xi)
+        u2, v2 = scanref.response_exact(a, 0.01, T, xi)
+        eu = float(np.max(np.abs(u - u2) / np.max(np.abs(u), axis=1)[:, None]))
+        ev = float(np.max(np.abs(v - v2) / np.max(np.abs(v), axis=1)[:, None]))
+        if not (eu < 1e-16 and ev < 1e-16):
+            raise core.HarnessError("pbt/ref/sdof_scan.py disagrees with pbt/ref/sdof.py: %.3g %.3g" % (eu, ev))
+
+
+if ref.longdouble_ok():
+    _scan_selfcheck()
+
+
 def _hh(*parts):
     s = ":".join(str(p) for p in ("c03-mid", gen.run_seed()) + parts)
     return int(_hashlib.blake2b(s.encode(), digest_size=8).hexdigest(), 16)
